@@ -212,11 +212,11 @@ def run (case _impl : String) : String :=
     match parsePolicy pol, clplanm.splitOn "/" with
     | some (p, idem), [c, pl, ms] =>
       match parseCl c, parsePlan pl, ms.toNat?, words _impl with
-      | some _, some plan, some m, [n, sn, _r] =>
-        match (n.drop 2).toString.toNat?, (sn.drop 2).toString.toNat? with
+      | some _, some plan, some m, [nw, sw, _r] =>
+        match (nw.drop 2).toString.toNat?, (sw.drop 2).toString.toNat? with
         | some n, some sn =>
           let fibers := if idem then 1 + m else 1
-          if n.startsWith "N=" ∧ sn.startsWith "S=" ∧ n ≤ plan.length + fibers * sameTargetBound p ∧ sn ≤ fibers
+          if nw.startsWith "N=" ∧ sw.startsWith "S=" ∧ n ≤ plan.length + fibers * sameTargetBound p ∧ sn ≤ fibers
           then _impl else s!"REJECT attempts>{plan.length}+{fibers}*{sameTargetBound p} or sessions>{fibers}"
         | _, _ => "REJECT unparsable"
       | some _, some _, some _, _ => "REJECT unparsable"
